@@ -23,7 +23,7 @@ pub fn spec() -> Spec {
         case_cap_s: |t| t.pick(900, 14400),
         rule: "one case per admissible 3-dimensional symbol (spherical tiles and vertex figures by the reference model, branching in {1,2,3,4,6}) on every class of D-sets of size <= M, plus the 20 corpus symbols. Per case: the verdict under EVERY schedule of the simplify choice point with at most 1 deviation (G3; symbols that never reach simplify have the single empty schedule); the verdict of every relabeling (all for size <= 3, systematic family above), of the dual and of every entry of covers(s, k) that the reference model accepts as an admissible covering. Oracle: a verdict is returned (no panic, no time-out); the verdict class is the same across schedules, relabelings and dual; never yes on a symbol and no on one of its covers or vice versa; every yes is re-derived: pseudo_toroidal_cover is a finite oriented branch-free covering (reference model), its H1 is Z^3 (textbook presentation + invariant factors) and it has 7 / 13 classes of subgroups of index 2 / 3; every corpus symbol gets yes. Non-trivial = the symbol passes the invariant filter (reaches the cover construction) or is a corpus symbol.",
         assumptions: &["the completeness of the table of space-group invariants (src/data/euclideanInvariants.data) cannot be re-derived offline; what is checked is totality, invariance, cover-consistency, certificate soundness of every yes, and the corpus", "covers(s, k) supplies covers; each is verified to be a covering of the symbol by the reference model", "the 7/13 subgroup counts of a certificate use the crate's presentation and low-index enumeration (validated by C09/C12)"],
-        bounds: |t| json!({"admissible_max_size": t.pick(3, 4), "choice_deviation_bound": 1, "cover_sheets": t.pick(2, 3), "cover_sheets_above_a_yes_symbol_of_at_most_6_chambers": t.pick(4, 6), "such_covers_have_at_most_chambers": t.pick(12, 18)}),
+        bounds: |t| json!({"admissible_max_size": t.pick(3, 4), "choice_deviation_bound": 1, "cover_sheets": t.pick(2, 3), "prism_family_base_2d_max_size": t.pick(4, 5), "cover_sheets_above_a_yes_symbol_of_at_most_6_chambers": t.pick(4, 6), "such_covers_have_at_most_chambers": t.pick(12, 18)}),
     }
 }
 
@@ -84,6 +84,11 @@ fn certificate(ctx: &mut Ctx, s: &RS) -> Result<(), String> {
 }
 
 fn check_symbol(ctx: &mut Ctx, family: &str, s: &RS, corpus: bool) {
+    check_symbol_opts(ctx, family, s, corpus, false);
+}
+
+/// `light`: default schedule only, three renumberings + dual, no covers (large harness-built symbols at the quick tier)
+fn check_symbol_opts(ctx: &mut Ctx, family: &str, s: &RS, corpus: bool, light: bool) {
     let case = json!({"family": family, "sym": rs_to_json(s)});
     ctx.announce(&case);
     let weight = s.n as u64;
@@ -91,7 +96,7 @@ fn check_symbol(ctx: &mut Ctx, family: &str, s: &RS, corpus: bool) {
     let mut verdicts: BTreeSet<Verdict> = BTreeSet::new();
     let mut bad_schedule: Option<(Vec<usize>, Verdict)> = None;
     let mut base: Option<Verdict> = None;
-    let stats = g3::explore_with(1, ctx.tier.pick(5, 1), &|| verdict(s), &mut |run| {
+    let stats = g3::explore_with(if light { 0 } else { 1 }, ctx.tier.pick(5, 1), &|| verdict(s), &mut |run| {
         if run.schedule.is_empty() {
             base = Some(run.result.clone());
         }
@@ -145,6 +150,10 @@ fn check_symbol(ctx: &mut Ctx, family: &str, s: &RS, corpus: bool) {
     }
     // relabelings and dual
     let mut variants: Vec<(String, RS)> = relabelings(s).into_iter().map(|t| ("relabeling".to_string(), t)).collect();
+    if light && variants.len() > 3 {
+        let step = variants.len() / 3;
+        variants = variants.into_iter().step_by(step.max(1)).take(3).collect();
+    }
     variants.push(("dual".into(), s.dual()));
     for (what, t) in variants {
         let vcase = json!({"family": family, "sym": rs_to_json(s), "variant": what, "variant_sym": rs_to_json(&t)});
@@ -155,6 +164,9 @@ fn check_symbol(ctx: &mut Ctx, family: &str, s: &RS, corpus: bool) {
             ctx.violation("not-invariant", vcase, format!("verdict {:?} for the symbol, {:?} for its {}", base, v, what), weight);
             return;
         }
+    }
+    if light {
+        return;
     }
     // covers
     // a symbol reported euclidean is followed further up its covers (every space group type below it must be
@@ -200,6 +212,22 @@ fn run(ctx: &mut Ctx) {
         for s in admissible_symbols(n) {
             if ctx.take() {
                 check_symbol(ctx, "admissible", &s, false);
+            }
+        }
+    }
+    if ctx.nviolations() > 0 {
+        return;
+    }
+    // prisms over every euclidean 2-dimensional symbol of size <= 4 [5] (12 [15] chambers): all wallpaper groups
+    // times the infinite dihedral group, in the harness's numbering and under renumberings
+    for t in euclidean_2d_symbols(tier.pick(4, 5)) {
+        if !ctx.take() {
+            continue;
+        }
+        if let Some(p) = prism_over(&t) {
+            if valid_symbol(&p).is_ok() && p.commutes() && admissible3d(&p) {
+                ctx.add("prisms", 1);
+                check_symbol_opts(ctx, "prism", &p, false, !tier.is_thorough() || p.n > 6);
             }
         }
     }
